@@ -143,6 +143,11 @@ type RIB struct {
 	// referred to. The map is keyed by the operation ID.
 	pendingEntries map[uint64]*pendingEntry
 
+	// postChangeHook is the hook registered through SetPostChangeHook, it is
+	// stored such that network instances that are created after it was
+	// registered are also subject to it. It is protected by nrMu.
+	postChangeHook RIBHookFn
+
 	// resolvedEntryHook is a function that is called for all entries that
 	// can be fully resolved in the RIB. In the current implementation it
 	// is called only for IPv4 entries.
@@ -340,6 +345,9 @@ type pendingEntry struct {
 // SetPostChangeHook assigns the supplied hook to all network instance RIBs within
 // the RIB structure.
 func (r *RIB) SetPostChangeHook(fn RIBHookFn) {
+	r.nrMu.Lock()
+	r.postChangeHook = fn
+	r.nrMu.Unlock()
 	for _, nir := range r.niRIB {
 		nir.mu.Lock()
 		nir.postChangeHook = fn
@@ -380,6 +388,7 @@ func (r *RIB) AddNetworkInstance(name string) error {
 	}
 
 	r.niRIB[name] = NewRIBHolder(name, rhOpt...)
+	r.niRIB[name].postChangeHook = r.postChangeHook
 	return nil
 }
 
